@@ -443,12 +443,13 @@ parse_next_record_header:
     /* Deal with the decrypted message. */
     if (innerType == SSL_RECORD_TYPE_HANDSHAKE)
     {
-	unsigned char *p_start = p;
+	unsigned char *p_start;
         psBool_t recordWasProtected = DECRYPTING_RECORDS(ssl);
         end = p + ptLen;
         /* Parse handshake messages until buffer runs out */
         while (p != end)
         {
+            p_start = p;
             /* Handshake messages MUST NOT span key changes (RFC 8446, 5.1):
                once a message of an unprotected record has activated the
                read keys, nothing more may be taken from that record. */
@@ -483,11 +484,15 @@ parse_next_record_header:
                  * Either handshake message or alert */
                 goto encodeResponse;
             }
-	    /* If we got a parse return of >= 0 but p did not move forward,
-	     * return an error to avoid infinite loop */
+	    /* If we got a parse return of >= 0 but p did not move forward
+	     * (fewer octets left than a handshake header: a header split
+	     * over records is not supported), fail instead of looping
+	     * for ever. Checked for every message of the record. */
 	    if (p_start == p)
 	    {
-        	return PS_FAILURE;
+                ssl->err = SSL_ALERT_DECODE_ERROR;
+                psTraceErrr("Truncated handshake header in record\n");
+                goto encodeResponse;
 	    }
         }
     }
